@@ -49,7 +49,7 @@ def families(tier):
         ("linear3", P, 3, lin, ALL9, ("far", "omit", "noisy")),
         ("mix4", P, 4, subsets(T, [1]) + [("vector", "distance"), ("distance", "height", "zenith"), T], ST4, ("true", "pert")),
         ("full9", [1, 5], 3, subsets(T, [1, 2]), ALL9, ("true", "pert")),
-        ("mix3", P, 3, subsets(T, range(1, 8)), ST5, ("true", "pert")),
+        ("mix3", P, 3, subsets(T, [1, 2, 3, 7]), ST5, ("true", "pert")),
     ]
 
 
